@@ -20,6 +20,7 @@ def run(ctx):
     S.r52_handler_cannot_raise(ctx, sc)
     S.r53_step_finally(ctx, sc)
     S.r54_strategy_setter(ctx, sc)
+    S.settings_persist(ctx, sc, 'R5.7')
     S.r21_typestate(ctx, sc)
     S.exception_text_total(ctx, 'R5.6')
     # resuming after a pause executes the remaining events only if the wake-up of the resumed run is not lost (shared rule with C04)
